@@ -97,7 +97,7 @@ func scenarios() []scenario {
 	// s13: a class with a Unicode class tested against multi-byte runes that are letters in one call
 	// and symbols in the other (what a matcher node remembers must not be shared between calls)
 	g13 := prep(&peg.Grammar{Rules: []*peg.Rule{{Name: "S", Expr: peg.Action(0, peg.Seq(peg.Label("v", peg.Plus(peg.Choice(peg.Action(0, peg.Plus(peg.Cls(false, false, `\pL`))), peg.Cls(true, false, "a")))), peg.Not(peg.Any())))}}})
-	out = append(out, scenario{"s13-unicode-class-multibyte", g13, core.Gen{}, script(g13, 0), []call{{"é€é€", rtapi.RunOpts{}}, {"é€é€", rtapi.RunOpts{}}}})
+	out = append(out, scenario{"s13-unicode-class-multibyte", g13, core.Gen{}, script(g13, 0), []call{{"é€é€", rtapi.RunOpts{}}, {"€é€é", rtapi.RunOpts{}}}})
 	out = append(out, scenario{"s14-unicode-class-multibyte-optimized", g13, core.Gen{Optimize: true, BasicLatin: true}, script(g13, 0), []call{{"€λ€λ", rtapi.RunOpts{}}, {"λ€€λ", rtapi.RunOpts{}}}})
 	out = append(out, scenario{"s8-three-calls", g1, core.Gen{}, script(g1, 0), []call{{"a", rtapi.RunOpts{InitState: true}}, {"b", rtapi.RunOpts{}}, {"", rtapi.RunOpts{InitState: true}}}})
 	return out
@@ -118,6 +118,8 @@ func runScenario(c *ShardCtx, sc scenario, mode string, bound int) {
 	if b == nil {
 		panic(&core.HarnessError{Msg: "scenario grammar rejected: " + sc.Name})
 	}
+	// the grammar value as loaded, before any call has run: no call may leave a trace in it
+	gBefore := b.RT.Dump()
 	// solo observations
 	solo := make([]string, len(sc.Calls))
 	for i, cl := range sc.Calls {
@@ -126,8 +128,12 @@ func runScenario(c *ShardCtx, sc scenario, mode string, bound int) {
 		vsync.Reset()
 		b.RT.ResetGlobals() // cold start: the call is the first one of the process
 		solo[i] = obsString(b.Run([]byte(cl.In), &o, sc.Script))
+		if d := b.RT.Dump(); d != gBefore {
+			c.Report(Violation{Desc: fmt.Sprintf("scenario %s: the shared grammar value g was modified by Parse(%q, %s) run alone (state kept in the grammar is shared by all calls)", sc.Name, cl.In, optsString(&cl.Opts)), Grammar: text, Gen: sc.Gen.String(),
+				Extra: map[string]any{"scenario": sc.Name}}, "")
+			return
+		}
 	}
-	gBefore := b.RT.Dump()
 	outcomes := map[string]bool{}
 	var firstBad *Violation
 	execOnce := func(prefix []int) (*sched.Execution, []string, error) {
